@@ -220,13 +220,17 @@ func runStress(c *Case) string {
 		nodes[i] = uuid.New()
 	}
 	var ops []string
+	txl := make([]*wire.MsgTx, txsN)
+	sp.Lock() // (the processor reads these maps from the Run loop)
 	for t := 0; t < txsN; t++ {
-		tx := wire.NewMsgTx(1)
-		tx.LockTime = uint32(700000 + c.ID*100000 + t)
+		txl[t] = wire.NewMsgTx(1)
+		txl[t].LockTime = uint32(700000 + c.ID*100000 + t)
 		rel[t] = t%3 == 0
-		sp.Lock()
-		sp.ids[*tx.TxHash()] = t
-		sp.Unlock()
+		sp.ids[*txl[t].TxHash()] = t
+	}
+	sp.Unlock()
+	for t := 0; t < txsN; t++ {
+		tx := txl[t]
 		start := make(chan struct{})
 		var wg sync.WaitGroup
 		for p := 0; p < peers; p++ {
